@@ -54,6 +54,27 @@ func (v *Vue) evaluate(ctx VueContext, nodes []*html.Node, depth int) ([]*html.N
 				continue
 			}
 
+			// v-if chains (v-if, v-else-if, v-else) come next, for every kind of element: the
+			// chain only selects a member, and the selected member comes back here without its
+			// chain directive to be evaluated like any other element - with its v-once, v-show,
+			// v-text, include or slot handling.
+			if !isPre && helpers.HasAttr(node, "v-if") {
+				chainResult, skipCount, err := v.evalElseIfChain(ctx, node, nodes[i:], depth)
+				if err != nil {
+					return nil, err
+				}
+				result = append(result, chainResult...)
+				// Skip past the v-else-if and v-else nodes that were part of this chain
+				i += skipCount
+				continue
+			}
+
+			// Skip v-else-if and v-else if they appear without v-if
+			// (they should be handled as part of a chain)
+			if !isPre && (helpers.HasAttr(node, "v-else-if") || helpers.HasAttr(node, "v-else")) {
+				continue
+			}
+
 			// Check for v-once early - skip if already rendered
 			if helpers.HasAttr(node, "v-once") {
 				vSeenID := helpers.GetAttr(node, "v-once-id")
@@ -91,25 +112,6 @@ func (v *Vue) evaluate(ctx VueContext, nodes []*html.Node, depth int) ([]*html.N
 					return nil, err
 				}
 				result = append(result, slotResult...)
-				continue
-			}
-
-			// Handle v-if chains (v-if, v-else-if, v-else) early, even for templates
-			// This ensures v-if/v-else-if/v-else are processed before template attributes
-			if helpers.HasAttr(node, "v-if") {
-				chainResult, skipCount, err := v.evalElseIfChain(ctx, node, nodes[i:], depth)
-				if err != nil {
-					return nil, err
-				}
-				result = append(result, chainResult...)
-				// Skip past the v-else-if and v-else nodes that were part of this chain
-				i += skipCount
-				continue
-			}
-
-			// Skip v-else-if and v-else if they appear without v-if
-			// (they should be handled as part of a chain)
-			if helpers.HasAttr(node, "v-else-if") || helpers.HasAttr(node, "v-else") {
 				continue
 			}
 
